@@ -6,7 +6,7 @@ from petl.util.materialise import cache as petl_cache
 
 from hypothesis import strategies as st
 
-from pv import catalog, catgen, codec, gen
+from pv import catalog, catgen, codec, gen, names
 from pv.core import Sub, Fail, exc_fail
 
 ID = "C01"
@@ -102,8 +102,10 @@ def _case(draw, tier, targets):
         S = [S[0]] * e.n
     # the container form of every source (list of lists, tuple of tuples, an object with only __iter__ ...)
     forms = [draw(st.sampled_from(["lists", "lists"] + catgen.FORMS)) for _ in S] if not e.cells else ["lists"] * len(S)
+    # field names that are objects (not str) with the usual text - only the text of a name identifies a field
+    name_objects = names.eligible(e) and draw(st.integers(0, 4)) == 0
     return {"entry": name, "variant": variant, "sources": S, "schedule": [list(a) for a in acts],
-            "fresh": draw(st.integers(1, 2)), "upstream": up, "diamond": diamond, "forms": forms}
+            "fresh": draw(st.integers(1, 2)), "upstream": up, "diamond": diamond, "forms": forms, "name_objects": name_objects}
 
 
 def case(tier, shard=0, nshards=1):
@@ -125,14 +127,21 @@ def run_schedule(case, ctx):
     diamond = bool(case.get("diamond"))
     forms = case.get("forms") or []
 
+    def named(S):
+        if not case.get("name_objects"):
+            return S
+        return [[[names.N(str(f)) for f in t[0]]] + list(t[1:]) for t in S]
+
     def shaped():
-        S = codec.snapshot(case["sources"])
+        S = named(codec.snapshot(case["sources"]))
         return [catgen.shape(t, forms[i]) if i < len(forms) else t for i, t in enumerate(S)]
+    if case.get("name_objects"):
+        ctx.label("name-objects")
     if any(f != "lists" for f in forms):
         ctx.label("container-forms")
     try:
         # the solo pass runs on plain lists of lists: the container form must not matter
-        solo = [norm(r) for r in _build(e, codec.snapshot(case["sources"]), variant, tmp, res, up)]
+        solo = [norm(r) for r in _build(e, named(codec.snapshot(case["sources"])), variant, tmp, res, up)]
     except Exception as ex:
         ctx.label("rejected:" + type(ex).__name__)  # totality is not C01's business
         return None
